@@ -15,9 +15,9 @@ SCALARS = ["u8", "u16", "u32", "u64", "i8", "i16", "i32", "i64", "f32", "f64"]
 
 
 class Reg:
-    def __init__(self, name, kind, length, access="RW", offset=None, init=None, len_tok=None, bf=None):
+    def __init__(self, name, kind, length, access="RW", offset=None, init=None, len_tok=None, bf=None, off_tok=None):
         self.name, self.kind, self.len, self.access = name, kind, length, access
-        self.offset, self.init, self.len_tok, self.bf = offset, init, len_tok, bf
+        self.offset, self.init, self.len_tok, self.bf, self.off_tok = offset, init, len_tok, bf, off_tok
         # init = (rust expression, protocol value) ; bf = (ty, lsb_lit, msb_lit)
 
     def ty_tok(self):
@@ -35,7 +35,7 @@ class Reg:
         return self.kind
 
     def decl(self):
-        off = ", offset = %d" % self.offset if self.offset is not None else ""
+        off = ", offset = %s" % (self.off_tok or self.offset) if self.offset is not None else ""
         ln = self.len_tok or str(self.len)
         s = "    #[register(len = %s, access = %s, ty = %s%s)]\n    %s" % (ln, self.access, self.ty_tok(), off, self.name)
         if self.init is not None:
@@ -44,11 +44,11 @@ class Reg:
 
 
 class Map:
-    def __init__(self, name, base, endian, regs, base_tok=None):
-        self.name, self.base, self.endian, self.regs, self.base_tok = name, base, endian, regs, base_tok
+    def __init__(self, name, base, endian, regs, base_tok=None, vis="pub "):
+        self.name, self.base, self.endian, self.regs, self.base_tok, self.vis = name, base, endian, regs, base_tok, vis
 
     def decl(self):
-        s = "#[register_map(base = %s, endianness = %s)]\npub enum %s {\n" % (self.base_tok or str(self.base), self.endian, self.name)
+        s = "#[register_map(base = %s, endianness = %s)]\n%senum %s {\n" % (self.base_tok or str(self.base), self.endian, self.vis, self.name)
         return s + "".join(r.decl() for r in self.regs) + "}\n\n"
 
 
@@ -69,11 +69,8 @@ def hexs(b):
 
 
 def compiles(ty, lsb, msb):
-    """normalised lsb/msb; mirrors the macro-time i64 overflow (F-C20-3)."""
-    signed = ty.startswith("i")
-    if signed:
-        return msb - lsb < 63
-    return msb - lsb + 1 < 63
+    """every lsb <= msb < bits compiles since min/max are computed in i128 (fix of F-C20-3)."""
+    return True
 
 
 def bf_regs(ty, endian, pairs, offset, length=None, access="RW", inits=None, prefix="F"):
@@ -132,11 +129,13 @@ def build():
         Reg("A1", "u16", 2, "RO"),
         Reg("Jump", "u64", 8, "RW", offset=0x20),
         Reg("AfterJump", "u8", 1, "WO"),                 # running offset continues after the explicit one
+        Reg("EmptyIn", "bytes", 0, "RW", offset=0x23),   # zero-length registers INSIDE the writable Jump
+        Reg("EmptySIn", "str", 0, "NA", offset=0x24),
         Reg("Back", "u16", 2, "RW", offset=0x08),        # backward explicit offset
         Reg("AfterBack", "i16", 2, "RW", init=("-2", word(-2, 16))),
         Reg("OverA", "u32", 4, "RW", offset=0x10),       # three registers over the same bytes
         Reg("OverB", "bytes", 4, "RW", offset=0x10),
-        Reg("OverC", "u16", 2, "RO", offset=0x12),
+        Reg("OverC", "u16", 2, "RO", offset=0x12, off_tok="OVER_C_OFFSET"),   # const-path offset
         Reg("Empty", "bytes", 0, "RW", offset=0x18),     # zero-length registers
         Reg("EmptyS", "str", 0, "RW", offset=0x1a),
         Reg("Wide", "u16", 4, "RW", offset=0x1c),        # len > size_of(ty)
@@ -168,6 +167,21 @@ def build():
     ]))
     mems.append(("MemFar", ["ScLE", "Far"]))
 
+    # ---- bit fields in maps with a non-zero base, private / pub(crate) maps ----
+    maps.append(Map("BfBase", 0x200, "BE", [
+        Reg("Pad", "u8", 1, "RO", init=("7", word(7, 8))),
+        Reg("Whole", "u32", 4, "RW", init=("0x8000_0001_u32", word(0x80000001, 32))),
+        Reg("Tail", "u16", 2, "RW")] +
+        bf_regs("u32", "BE", [(0, 0), (4, 11), (12, 30), (31, 31)], 1, inits={(4, 11): ("0xa5", word(0xA5, 32))}) +
+        bf_regs("i32", "BE", [(0, 3), (12, 30), (31, 31), (0, 31)], 1) +
+        bf_regs("i16", "BE", [(0, 15), (3, 9)], 5, prefix="T"), vis=""))
+    maps.append(Map("BfBaseLE", 0x33, "LE", [
+        Reg("Whole", "u64", 8, "RW", init=("0xffff_0000_ffff_0000_u64", word(0xFFFF0000FFFF0000, 64)))] +
+        bf_regs("u64", "LE", [(0, 63), (0, 62), (1, 63), (17, 40)], 0) +
+        bf_regs("i64", "LE", [(0, 63), (1, 63), (63, 63), (17, 40)], 0, inits={(17, 40): ("-2", word(-2, 64))}),
+        vis="pub(crate) "))
+    mems.append(("MemBfBase", ["BfBase", "BfBaseLE"]))
+
     # ---- bit fields: all (lsb,msb) for 8/16 bit, boundary ones for 32/64 ----
     p32 = boundary_pairs(32, [0, 1, 7, 8, 15, 16, 23, 30, 31]) + [(9, 21), (14, 14), (3, 28)]
     p64 = boundary_pairs(64, [0, 1, 31, 32, 33, 61, 62, 63]) + [(9, 21), (5, 60), (2, 63)]
@@ -188,17 +202,6 @@ def build():
     return maps, mems
 
 
-def excluded_bitfields():
-    """(ty, lsb, msb) combinations the generator leaves out because the macro-time i64
-    arithmetic overflows (declaration does not compile): sent to the model as `nocompile`."""
-    out = []
-    for ty in ("u64", "i64"):
-        for (l, m) in all_pairs(64):
-            if not compiles(ty, l, m):
-                out.append((ty, l, m))
-    return out
-
-
 def emit(maps, mems):
     by_name = {m.name: m for m in maps}
     o = []
@@ -206,7 +209,7 @@ def emit(maps, mems):
     o.append("// Register-map family for the C20 harness, declared with the real macros of /repo/impl.\n\n")
     o.append("#![allow(non_snake_case, dead_code, clippy::all)]\n")
     o.append("use super::*;\nuse cameleon_impl::memory::*;\n\n")
-    o.append("pub const BASE_SC_BE: u64 = 0x100;\npub const BLOB_LEN: usize = 4;\n\n")
+    o.append("pub const BASE_SC_BE: u64 = 0x100;\npub const BLOB_LEN: usize = 4;\npub const OVER_C_OFFSET: usize = 0x12;\n\n")
     for m in maps:
         o.append(m.decl())
     for (mem, frs) in mems:
@@ -233,10 +236,6 @@ def emit(maps, mems):
     for (mem, frs) in mems:
         o.append("    MemDesc { name: \"%s\", maps: &[%s], new: || Box::new(%s::new()) },\n"
                  % (mem, ", ".join('"%s"' % f for f in frs), mem))
-    o.append("];\n\n")
-    o.append("pub static EXCLUDED_BITFIELDS: &[(&str, usize, usize)] = &[\n")
-    for (ty, l, m) in excluded_bitfields():
-        o.append("    (\"%s\", %d, %d),\n" % (ty, l, m))
     o.append("];\n\n")
     for (mem, frs) in mems:
         regs = ", ".join("%s::%s" % (f, r.name) for f in frs for r in by_name[f].regs)
